@@ -629,6 +629,11 @@ func TestVerifMarkup(t *testing.T) {
 	pre := func() verifNode { return verifNode{T: "pre", Kids: []verifNode{tx()}} }
 	docs = append(docs, []verifNode{tx(), pre(), {T: "img"}, lk()}, []verifNode{pre(), lk(), pre(), {T: "img"}, tx()}, []verifNode{lk(), pre(), lk()},
 		[]verifNode{{T: "img"}, pre(), pre(), {T: "img"}, lk(), tx()}, []verifNode{pre(), {T: "img"}})
+	/* styled stretches that end in white space of their own, with unstyled text after them */
+	sty := func(kids ...verifNode) verifNode { return verifNode{T: "sty", Kids: kids} }
+	for k := 0; k < 4; k++ {
+		docs = append(docs, []verifNode{tx(), sty(tx()), tx()}, []verifNode{sty(tx(), tx()), tx(), {T: "blk", Kids: []verifNode{tx()}}}, []verifNode{sty(sty(tx())), tx(), lk()})
+	}
 	for i := 0; i < in.Random; i++ {
 		if i%8 == 0 {
 			/* many links: two-digit numbers */
